@@ -2,6 +2,7 @@ import SciVerif.Lemmas.StuckCore
 import SciVerif.Lemmas.Net
 import SciVerif.Lemmas.NetSlots
 import SciVerif.Lemmas.NetPorts
+import SciVerif.Lemmas.NetPortsSlots
 import SciVerif.Lemmas.Slots
 import SciVerif.Props.C16
 import SciVerif.Props.C08
@@ -41,7 +42,8 @@ and whether it returned; channel occupancy is the difference of two counters):
   task waits for `cores v` of `max` slots, runs, releases them and only then offers `Done`, with
   head-of-queue forwarding (`Model/NetSlots.lean`) — by projecting stuck states onto the counting model; the
   abstraction "a created task always becomes forwardable" is thereby a theorem, given `cores v ≤ max`.
-* `c05_channel_ops_no_deadlock` / `_runs_are_finite` / `_complete` / `_capacity` / `_deadlock_root_cause`: the same statements for the
+* `c05_channel_ops_no_deadlock` / `_runs_are_finite` / `_complete` / `_capacity` / `_deadlock_root_cause`
+  (and `c05_channel_ops_with_slots_no_deadlock` / `_complete` for the same model with task slots): the same statements for the
   model in which every single channel operation is a step (`Model/NetPorts.lean`; a connection is an in-port, so
   one process may feed several in-ports of another): a process reads its in-ports
   one after the other in any order, holding the items already read, and sends a finished task's outputs
@@ -362,8 +364,63 @@ theorem c05_channel_ops_needs_buffer :
     (frun (netChain2 1 0) (finit 2) [.create ⟨0, by omega⟩]).map
       (fun s => (fstuckB (netChain2 1 0) s, s.term ⟨0, by omega⟩, s.term ⟨1, by omega⟩)) = some (true, false, false) := by decide
 
+/-! ### channel operations and task slots together -/
+open SciVerif.Net SciVerif.NetPorts in
+/-- with tasks that wait for slots, run, release them and are only then sent on (head of the queue first, connection
+by connection): a reachable state with an unreturned process always has an enabled step, for every slot
+configuration in which no process asks for more cores than the workflow has -/
+theorem c05_channel_ops_with_slots_no_deadlock {n : Nat} (sn : SNet n) (N : Nat) (hbal : balanced sn.net N)
+    (hac : acyclic sn.net) (hB : 1 ≤ sn.net.B) (hcores : ∀ v, sn.cores v ≤ sn.max)
+    (ls : List (PLbl n)) (s : PSt n) (hr : prun sn (pinit n) ls = some s)
+    (v : Fin n) (hv : s.base.term v = false) : ∃ l s', pstep sn s l = some s' := by
+  have hinv := prun_inv sn N hbal ls _ _ (pinv_init sn N) hr
+  apply Classical.byContradiction
+  intro hno
+  have hst : pstuck sn s := by
+    intro l
+    cases h : pstep sn s l with
+    | none => rfl
+    | some s' => exact absurd ⟨l, s', h⟩ hno
+  have := fno_stuck sn.net N hbal hac hB s.base hinv.base (pstuck_proj sn N hcores s hinv hst) v
+  simp [hv] at this
+
+open SciVerif.Net SciVerif.NetPorts in
+/-- a maximal run of that model: every process returned after exactly `N` tasks, every queue empty, every
+connection drained -/
+theorem c05_channel_ops_with_slots_complete {n : Nat} (sn : SNet n) (N : Nat) (hbal : balanced sn.net N)
+    (hac : acyclic sn.net) (hB : 1 ≤ sn.net.B) (hcores : ∀ v, sn.cores v ≤ sn.max)
+    (ls : List (PLbl n)) (s : PSt n) (hr : prun sn (pinit n) ls = some s) (hmax : pstuck sn s) :
+    (∀ v, s.base.term v = true ∧ s.base.c v = N ∧ s.base.f v = N ∧ s.q v = []) ∧
+    (∀ w i, i < (sn.net.ins w).length → s.base.s w i = N ∧ s.base.r w i = N) := by
+  have hinv := prun_inv sn N hbal ls _ _ (pinv_init sn N) hr
+  have hst := pstuck_proj sn N hcores s hinv hmax
+  have hall : ∀ v, s.base.term v = true ∧ s.base.c v = N ∧ s.base.f v = N := fun v =>
+    have ht := fno_stuck sn.net N hbal hac hB s.base hinv.base hst v
+    ⟨ht, hinv.base.tm v ht⟩
+  refine ⟨fun v => ⟨(hall v).1, (hall v).2.1, (hall v).2.2, ?_⟩, ?_⟩
+  · have hl := hinv.len v
+    have := (hall v).2
+    exact List.eq_nil_of_length_eq_zero (by omega)
+  · intro w i hi
+    obtain ⟨u, hu⟩ := sender_of_lt sn.net w i hi
+    have h1 := hinv.base.sf w i u hu
+    have h2 := hinv.base.rc w i hi
+    have := (hall u).2; have := (hall w).2
+    omega
+
+open SciVerif.Net SciVerif.NetPorts in
+/-- non-vacuity: a chain of two processes with one slot; the second task of the source has to wait for the slot -/
+example : (prun { net := netChain2 2 1, cores := fun _ => 1, max := 1 } (pinit 2)
+      [.create ⟨0, by omega⟩, .create ⟨0, by omega⟩, .start ⟨0, by omega⟩ 0]).map
+      (fun s => ((pstep { net := netChain2 2 1, cores := fun _ => 1, max := 1 } s (.start ⟨0, by omega⟩ 1)).isSome,
+                 (pstep { net := netChain2 2 1, cores := fun _ => 1, max := 1 } s (.finish ⟨0, by omega⟩ 0)).isSome,
+                 (pstep { net := netChain2 2 1, cores := fun _ => 1, max := 1 } s (.send ⟨1, by omega⟩ 0)).isSome)) =
+    some (false, true, false) := by decide
+
 end SciVerif.C05
 
+#print axioms SciVerif.C05.c05_channel_ops_with_slots_no_deadlock
+#print axioms SciVerif.C05.c05_channel_ops_with_slots_complete
 #print axioms SciVerif.C05.c05_channel_ops_no_deadlock
 #print axioms SciVerif.C05.c05_channel_ops_runs_are_finite
 #print axioms SciVerif.C05.c05_channel_ops_complete
